@@ -83,6 +83,23 @@ fn fib_trace(variant: u8, n: usize, a: u32, b: u32) -> (RowMajorMatrix<F>, Vec<F
 }
 
 /// A proof the exploration can feed to the API. `Send + Sync`: plain data, no `Rc`.
+/// defects of `RecursionOutput::into_recursion_input` observed while wrapping base proofs
+pub static CONVERSION_DEFECTS: std::sync::Mutex<Vec<String>> = std::sync::Mutex::new(Vec::new());
+
+/// content digest of batch common data (commitment, per-instance metadata, lookup count)
+pub fn common_digest(cd: &p3_batch_stark::CommonData<Cfg>) -> String {
+    match &cd.preprocessed {
+        None => format!("none|{}", cd.lookups.len()),
+        Some(g) => format!(
+            "{}|{:?}|{:?}|{}",
+            vpcore::serde_json::to_string(&g.commitment).unwrap_or_default(),
+            g.instances.iter().map(|m| m.as_ref().map(|m| (m.matrix_index, m.width, m.degree_bits))).collect::<Vec<_>>(),
+            g.matrix_to_instance,
+            cd.lookups.len()
+        ),
+    }
+}
+
 pub enum ProofObj {
     Uni {
         proof: Proof<Cfg>,
@@ -166,9 +183,12 @@ pub fn make_base(name: &str, inst: usize, cfg: &Cfg, fp: &FriParams) -> Result<P
         "B" => {
             // B0: the aggregation example's dummy circuit (const == public); B1: the
             // recursive_fibonacci example's base circuit (chain of additions).
-            let n_add = if idx == 0 { 0 } else { 24 * idx };
+            // B2: ONE addition proved with four ALU lanes (the prover reduces the lanes of a
+            // one-op table and re-derives its prover data: the proof's own stark_common then
+            // differs from the CircuitProverData it was asked to prove with)
+            let n_add = if idx == 0 || idx == 2 { 0 } else { 24 * idx };
             let constant = if inst == 0 { 3 } else { 11 };
-            let tp = TablePacking::new(1, 1).with_fri_params(fp.log_final_poly_len, fp.log_blowup);
+            let tp = TablePacking::new(1, if idx == 2 { 4 } else { 1 }).with_fri_params(fp.log_final_poly_len, fp.log_blowup);
             let mut b = CircuitBuilder::<F>::new();
             let expected = b.alloc_public_input("expected");
             let mut x = b.alloc_const(F::from_u32(constant), "c");
@@ -185,6 +205,10 @@ pub fn make_base(name: &str, inst: usize, cfg: &Cfg, fp: &FriParams) -> Result<P
                 val = (val.1, val.0 + val.1);
             }
             b.connect(y, expected);
+            if idx == 2 {
+                // exactly one ALU row that constant folding cannot remove
+                let _sq = b.mul(expected, expected);
+            }
             let circuit = b.build().map_err(|e| format!("{e:?}"))?;
             let (ad, pc, npc) = get_airs_and_degrees_with_prep::<Cfg, F, 1>(
                 &circuit,
@@ -206,6 +230,25 @@ pub fn make_base(name: &str, inst: usize, cfg: &Cfg, fp: &FriParams) -> Result<P
                 .verify_all_tables::<F>(&proof)
                 .map_err(|e| format!("base {name} does not verify: {e}"))?;
             let n = proof.proof.opened_values.instances.len();
+            // As the examples do for their base proofs: wrap (proof, prover data) as a
+            // RecursionOutput and convert it. The conversion must hand out the proof's own common
+            // data (the prover may have re-derived them, e.g. after reducing the lanes of a one-op
+            // ALU table); a different content is recorded and reported by main as a violation.
+            let out = p3_recursion::RecursionOutput(proof, std::rc::Rc::new(cpd));
+            {
+                let inp = out.into_recursion_input::<p3_recursion::BatchOnly>();
+                if let p3_recursion::RecursionInput::BatchStark { common_data, .. } = &inp {
+                    let (a, b) = (common_digest(common_data), common_digest(&out.0.stark_common));
+                    if a != b {
+                        CONVERSION_DEFECTS.lock().unwrap().push(format!(
+                            "base {name} wrapped as RecursionOutput(proof, prover data): into_recursion_input hands out common data that are not the proof's own stark_common (…{} vs …{})",
+                            &a[a.len().saturating_sub(90)..],
+                            &b[b.len().saturating_sub(90)..]
+                        ));
+                    }
+                }
+            }
+            let p3_recursion::RecursionOutput(proof, _cpd) = out;
             Ok(ProofObj::Batch { proof, tpi: vec![vec![]; n] })
         }
         _ => Err(format!("bad base name {name}")),
